@@ -5,6 +5,7 @@ lookup may be a miss); the theorems here close that gap for every reachable stat
 ONLY property statements and non-vacuity examples live here; lemmas are in Proofs/C16Retain.lean.
 -/
 import Dawgs.Proofs.C16Retain
+import Dawgs.Proofs.C16Fits
 import Dawgs.Props.C16
 namespace Dawgs.C16.Props
 open Dawgs.C16
@@ -78,6 +79,19 @@ theorem nemap_step_retention (c : Int) (ops : List Op) (o : Op) :
   | put k v =>
     exact ⟨(NeMap.put_frame s k v).1, (NeMap.put_frame s k v).2, fun hk hfull => NeMap.put_full_dropped hk hfull v⟩
 
+
+/-- A SIEVE cache whose working set fits never forgets: if all keys the history ever puts lie in a list `U` of at most
+`capacity` keys, then EVERY lookup of the history is answered exactly as the ideal never-evicting map answers it — hit
+with the latest undeleted value, miss only when there is none.  (With `sieve_refines_map` a miss was always allowed;
+here it is allowed only when the ideal map misses too.) -/
+theorem sieve_exact_when_working_set_fits (c : Int) (ops : List Op) (U : List Nat)
+    (hU : putKeys ops ⊆ U) (hlen : U.length ≤ sieveCap c) :
+    (Sieve.new c).trace ops = idealTrace [] ops := by
+  have hcap : (Sieve.new c).cap = sieveCap c := rfl
+  exact Sieve.exact_trace U (Sieve.inv_new c) (fun x => by simp [Sieve.new, valOf_nil, Ideal.get])
+    (by simp [Sieve.new, keys]) (fun l hn hs => by
+      rw [hcap]; exact Nat.le_trans (List.Nodup.length_le_of_subset hn hs) hlen) ops hU
+
 /-! Non-vacuity: the three `Put` cases and the eviction witness occur on reachable states; the counters move. -/
 example :
     let s := (Sieve.new 2).run [Op.put 1 10, .put 2 20, .get 1]
@@ -92,5 +106,14 @@ example :
 example :
     let s := (NeMap.new 1).run [Op.put 1 10]
     s.lookup 2 = none ∧ ¬ s.size < s.cap ∧ (s.step (.put 2 20)).1 = s := by decide
+example :
+    let ops := [Op.put 1 10, .put 2 20, .get 1, .put 1 11, .del 2, .get 2, .get 1, .put 2 21, .get 2]
+    putKeys ops ⊆ [1, 2] ∧ [1, 2].length ≤ sieveCap 2 ∧
+    ((Sieve.new 2).trace ops).map (·.2) =
+      [Out.unit, .unit, .hit 10, .unit, .unit, .miss, .hit 11, .unit, .hit 21] := by decide
+/-- the hypothesis is needed: three keys through a cache of two lose one. -/
+example :
+    let ops := [Op.put 1 10, .put 2 20, .put 3 30, .get 1]
+    (Sieve.new 2).trace ops ≠ idealTrace [] ops := by decide
 
 end Dawgs.C16.Props
